@@ -420,3 +420,45 @@ mod tests {
         assert!(n > 30);
     }
 }
+
+/// The same bytes inside the outer headers under which such data travels elsewhere (a DER OCTET STRING /
+/// SEQUENCE / BIT STRING in minimal and long forms, 8/16/24-bit length prefixes, a TLS record header, a
+/// handshake header, an extension header): a parser that "helpfully" recognises one of them is no longer
+/// the parser of its own format. None of these is a length-mapped structure (no deviations apply).
+pub fn wrappers(b: &[u8]) -> Vec<W> {
+    let n = b.len();
+    let mut heads: Vec<Vec<u8>> = Vec::new();
+    for tag in [0x04u8, 0x30, 0x03] {
+        let pad: &[u8] = if tag == 0x03 { &[0] } else { &[] };
+        let m = n + pad.len();
+        if m < 128 {
+            heads.push([&[tag, m as u8][..], pad].concat());
+        }
+        if m < 256 {
+            heads.push([&[tag, 0x81, m as u8][..], pad].concat());
+        }
+        if m < 65536 {
+            heads.push([&[tag, 0x82, (m >> 8) as u8, m as u8][..], pad].concat());
+        }
+    }
+    if n < 256 {
+        heads.push(vec![n as u8]);
+    }
+    if n < 65536 {
+        heads.push(vec![(n >> 8) as u8, n as u8]);
+        heads.push(vec![0x16, 0x03, 0x03, (n >> 8) as u8, n as u8]);
+        heads.push(vec![0x00, 0x12, (n >> 8) as u8, n as u8]);
+        heads.push(vec![0x00, 0x00, (n >> 8) as u8, n as u8]);
+    }
+    heads.push(vec![(n >> 16) as u8, (n >> 8) as u8, n as u8]);
+    heads.push(vec![0x0b, (n >> 16) as u8, (n >> 8) as u8, n as u8]);
+    heads.push(vec![0x16, (n >> 16) as u8, (n >> 8) as u8, n as u8]);
+    heads
+        .into_iter()
+        .map(|h| {
+            let mut w = W::new();
+            w.bytes(&h).bytes(b);
+            w
+        })
+        .collect()
+}
